@@ -145,6 +145,29 @@ Orders == [
   return     |-> <<SFn(<<102, 102>>, <<>>, FALSE, <<SReturn(T(1, EBin("+", T(2, I(1)), I(1))))>>), SPrint(ECall(Fv, <<>>))>>,
   objdestruct |-> <<SDecl(EObj(<<Pair(T(1, EStr(KA)), Tmp(1)), Pair(T(2, EStr(KB)), Tmp(2))>>), T(3, O2)),
                     SPrint(EBin("-", Tmp(1), Tmp(2)))>>,
+  \* the same impure expression written twice: evaluated twice
+  samesloteffects |-> <<SDecl(Tmp(1), I(0)),
+                        SFn(<<110, 120>>, <<>>, FALSE, <<SOpAssign(Tmp(1), "+", I(1)), SReturn(EIStr(<<Lit(<<35>>), SlotP(0, ECall(ETProp(EBin("+", EStr(<<>>), EStr(<<120>>)), N_type), <<>>)), Lit(<<>>)>>))>>),
+                        SFn(<<110, 110>>, <<>>, FALSE, <<SOpAssign(Tmp(1), "+", I(1)),
+                                                         SIf(EBin("==", Tmp(1), I(1)), <<SReturn(EStr(<<111, 110, 101>>))>>),
+                                                         SReturn(EStr(<<116, 119, 111>>))>>),
+                        SPrint(EIStr(<<Lit(<<195, 169>>), SlotP(0, ECall(Nm(<<110, 110>>), <<>>)), Lit(<<44>>),
+                                       SlotP(0, ECall(Nm(<<110, 110>>), <<>>)), Lit(<<226, 130, 172>>)>>)),
+                        SPrint(Tmp(1))>>,
+  samecalleffects |-> <<SDecl(Tmp(1), I(0)),
+                        SFn(<<110, 110>>, <<>>, FALSE, <<SOpAssign(Tmp(1), "+", I(1)), SReturn(Tmp(1))>>),
+                        SPrint(EList(<<ECall(Nm(<<110, 110>>), <<>>), ECall(Nm(<<110, 110>>), <<>>)>>)),
+                        SPrint(EBin("-", ECall(Nm(<<110, 110>>), <<>>), ECall(Nm(<<110, 110>>), <<>>))),
+                        SPrint(EObj(<<Pair(EStr(KA), ECall(Nm(<<110, 110>>), <<>>)), Pair(EStr(KB), ECall(Nm(<<110, 110>>), <<>>))>>)),
+                        SFor(Tmp(2), EList(<<I(1), I(2)>>), <<SPrint(EIStr(<<Lit(<<>>), SlotP(0, ECall(ETProp(ECall(Nm(<<110, 110>>), <<>>), N_type), <<>>)), Lit(<<>>)>>))>>),
+                        SPrint(Tmp(1))>>,
+  \* a declaration whose right-hand side reads the outer variables it shadows
+  shadowrhs  |-> <<SDecl(Tmp(1), I(1)), SDecl(Tmp(2), I(2)), SDecl(Tmp(3), I(3)),
+                   SBlock(<<SDecl(EPat(<<Tmp(1), Tmp(2), Tmp(3)>>), EList(<<Tmp(2), Tmp(3), Tmp(1)>>)),
+                            SPrint(EList(<<Tmp(1), Tmp(2), Tmp(3)>>))>>),
+                   SBlock(<<SDecl(Tmp(1), EBin("+", Tmp(1), I(10))), SPrint(Tmp(1))>>),
+                   SFor(EPat(<<EVar(N_us), Tmp(2)>>), EList(<<Tmp(2), EBin("+", Tmp(2), I(1))>>), <<SPrint(Tmp(2))>>),
+                   SPrint(EList(<<Tmp(1), Tmp(2), Tmp(3)>>))>>,
   nestedcall |-> <<SPrint(T(1, T(2, T(3, I(4)))))>>,
   argsthenerror |-> <<SPrint(ECall(T(1, I(5)), <<T(2, I(1))>>))>>
 ]
